@@ -54,6 +54,17 @@ static void args_encode(struct live *L)
     }
 }
 
+/* a fragment_len shorter than the real fragments is honoured literally: the buffers handed in hold exactly that many bytes (the first
+ * fragment_len bytes of the fragment) and end at a PROT_NONE page, so reading a header that was not given faults */
+static gbuf_t shortbuf[4][32];
+static char *short_frag(struct stripe *s, int i, int which, uint64_t len)
+{
+    gbuf_t *g = &shortbuf[which][i];
+    if (!g->map) { uint8_t *p = gbuf_alloc(g, len, GP_END); memcpy(p, frag_at(s, GP_END, i), len); gbuf_readonly(g); }
+    return (char *)g->p;
+}
+static void short_free(void) { for (int w = 0; w < 4; w++) for (int i = 0; i < 32; i++) gbuf_free(&shortbuf[w][i]); }
+
 static void args_decode(struct live *L)
 {
     struct stripe *s = &L->s; int n = s->n, k = s->sh.k;
@@ -64,7 +75,7 @@ static void args_decode(struct live *L)
     for (int force = 0; force < 2; force++) for (int a = 0; a < 2; a++) for (int b = 0; b < 2; b++) {
         if (!vh_case_begin("desc=%s,frags=%s,n=%d,flen=%lu,force=%d,out=%s,outlen=%s", DN[di], fp ? "NULL" : "ok", nfs[ni], (unsigned long)fls[fi], force, a ? "NULL" : "ok", b ? "NULL" : "ok")) continue;
         char **arr = (char **)(s->gptr.p + s->gptr.len) - n;
-        for (int i = 0; i < n; i++) arr[i] = (char *)frag_at(s, GP_END, i);
+        for (int i = 0; i < n; i++) arr[i] = fi ? short_frag(s, i, fi, fls[fi]) : (char *)frag_at(s, GP_END, i);
         int valid = di == 0 && !fp && nfs[ni] >= k && fi == 0 && !a && !b;
         if (!valid) vh_nontrivial();
         char *out = NULL; uint64_t ol = 0;
@@ -94,7 +105,7 @@ static void args_reconstruct(struct live *L)
         if (!vh_case_begin("desc=%s,frags=%s,n=%d,flen=%lu,dest=%d,out=%s", DN[di], fp ? "NULL" : "ok", nfs[ni], (unsigned long)fls[fi], dests[de], a ? "NULL" : "ok")) continue;
         /* fragment 0 is the one left out; the list holds 1..n-1 */
         char **arr = (char **)(s->gptr.p + s->gptr.len) - n;
-        for (int i = 0; i + 1 < n; i++) arr[i] = (char *)frag_at(s, GP_END, i + 1);
+        for (int i = 0; i + 1 < n; i++) arr[i] = fi ? short_frag(s, i + 1, fi, fls[fi]) : (char *)frag_at(s, GP_END, i + 1);
         uint8_t *ob = s->gout.p + s->gout.len - (fls[fi] < s->flen && fls[fi] > 0 ? fls[fi] : s->flen);
         int in_range = dests[de] >= 0 && dests[de] < n;
         int enough = nfs[ni] == n - 1 || (nfs[ni] == k && n - nfs[ni] <= s->sh.m);
@@ -253,6 +264,7 @@ static void engine(void)
         if (!vh_group_begin("A/%s/%s-k%dm%d", fnn[f], be_name(lives[li].be), lives[li].k, lives[li].m)) continue;
         struct live L;
         if (open_live(&L, lives[li]) == 0) fns[f](&L);
+        short_free();
         stripe_close(&L.s, 0);
         vh_group_end();
     }
